@@ -436,6 +436,14 @@ func (term *TermInvoke) Operands() []*value.Value {
 	}
 	ops = append(ops, &term.NormalRetTarget)
 	ops = append(ops, &term.ExceptionRetTarget)
+	for _, bundle := range term.OperandBundles {
+		if bundle == nil {
+			continue
+		}
+		for i := range bundle.Inputs {
+			ops = append(ops, &bundle.Inputs[i])
+		}
+	}
 	return ops
 }
 
@@ -602,6 +610,14 @@ func (term *TermCallBr) Operands() []*value.Value {
 	ops = append(ops, &term.NormalRetTarget)
 	for i := range term.OtherRetTargets {
 		ops = append(ops, &term.OtherRetTargets[i])
+	}
+	for _, bundle := range term.OperandBundles {
+		if bundle == nil {
+			continue
+		}
+		for i := range bundle.Inputs {
+			ops = append(ops, &bundle.Inputs[i])
+		}
 	}
 	return ops
 }
